@@ -585,3 +585,43 @@ def run(ctx):  # noqa: F811
         if r.startswith("C08-") and r not in keep_rules and r not in rules_before:
             ctx.rules.pop(r)
     ctx.ob(R10, "urllib3.util.ssl_match_hostname._dnsname_match", f"{len(ctx.obs) - before} shared obligations (C08-R1)", True)
+
+    # ------------------------------------------------------------------ shared with C08-R4 (added after a round-3 seed): which subject names may satisfy which kind of host
+    from . import c08_rest
+    before = len(ctx.obs)
+    rules_before = dict(ctx.rules)
+    c08_rest.run(ctx)
+    keep_rules = ("C08-R4",)
+    ctx.obs[before:] = [o for o in ctx.obs[before:] if o.rule in keep_rules]
+    for r in list(ctx.rules):
+        if r.startswith("C08-") and r not in keep_rules and r not in rules_before:
+            ctx.rules.pop(r)
+    ctx.rules["C08-R4"]["decides"] = "(shared with C08) when urllib3 checks the name itself, " + ctx.rules["C08-R4"]["decides"]
+
+    # ------------------------------------------------------------------ R11 trust anchors are the configured ones
+    m = ctx.model
+    R11 = ctx.rule("C07-R11", "chain validation is against the configured CAs: the OS default trust store is added (load_default_certs) only on paths where no CA was configured - ca_certs, ca_cert_dir and ca_cert_data are all unset - and the context is urllib3's own default one, never a caller-supplied context", "E10 effect rows of _ssl_wrap_socket_and_match_hostname")
+    from ..rows import GenRule, effect_rows, helper_closure
+    wf11 = m.func(WRAP)
+    inl11 = helper_closure(m, [wf11]) - {wf11.qual}
+    rule11 = GenRule(ctx, wf11.module, inline=frozenset(inl11), events=lambda t_, n_: "load-defaults" if t_.endswith(".load_default_certs") else None)
+    rows11 = effect_rows(ctx, wf11, rule11, None, budget=3000000)
+    CA_PARAMS = [p_ for p_ in wf11.params() if p_ in ("ca_certs", "ca_cert_dir", "ca_cert_data")]
+    ctx.ob(R11, wf11.qual, "the three ways to configure a CA are parameters of the verification function", len(CA_PARAMS) == 3, str(CA_PARAMS), node=wf11.node)
+    n11, seen11 = 0, set()
+    for r in rows11:
+        if not r.events("load-defaults"):
+            continue
+        n11 += 1
+        cas = tuple(r.truth("p:" + p_) for p_ in CA_PARAMS)
+        own = r.is_none("p:ssl_context")
+        if own is None and r.truth("p:ssl_context") is False:
+            own = True
+        k_ = (cas, own)
+        if k_ in seen11:
+            continue
+        seen11.add(k_)
+        ok = all(c_ is False for c_ in cas) and own is True
+        ctx.ob(R11, wf11.qual, f"OS default trust store loaded with {dict(zip(CA_PARAMS, cas))}, caller context absent={own}", ok,
+               "" if ok else "the default trust store is added although a CA was configured (or into a caller's context): a peer certified by any public CA passes chain validation, not only one certified by the configured CA", witness=r.witness(), node=wf11.node)
+    ctx.sites(R11, n11, 1, "rows that load the OS default trust store")
